@@ -617,7 +617,46 @@ Section Phases.
       destruct (slot_of c pos n) as [|f idx b|h] eqn:Es; try (unfold is_bad; rewrite Es; reflexivity).
       destruct (is_bad n); reflexivity.
     Qed.
+
+    (* the data errors are located: one error tag per damaged block, in disk order, nothing else; one error counted per tag *)
+    Theorem data_errors_located :
+      let a := data_phase hashf bs newino now o c pos s in
+      r_tags (da_st a) = r_tags s ++ flat_map tag_of (seq 0 (length (c_disks c)))
+      /\ r_err (da_st a) = r_err s + length (filter is_bad (seq 0 (length (c_disks c))))
+      /\ map fe_idx (da_failed a) = filter is_bad (seq 0 (length (c_disks c)))
+      /\ (forall j, tag_of j = [] <-> is_bad j = false)
+      /\ (forall j t, In t (tag_of j) -> exists f idx b k, slot_of c pos j = SFile f idx b
+                                         /\ t = tg k [pos; j] [cf_name f; N.of_nat idx] /\ (k = K_ERR_DATA \/ k = K_ERR_READ \/ k = K_ERR_OPEN)).
+    Proof.
+      cbn zeta. destruct data_phase_inv as [Ibuf Ifailed Ivalid Iused Icore Ierr Itags Ifs Iflags Ifsc].
+      split; [exact Itags|]. split.
+      - rewrite Ierr, Ifailed. rewrite <- (map_length fe_idx), failed_idx_filter. reflexivity.
+      - split; [rewrite Ifailed; apply failed_idx_filter|]. split.
+        + intro j. unfold tag_of, is_bad. destruct (slot_of c pos j) as [|f idx b|h]; try tauto.
+          destruct (read_block bs s j f idx) as [y|].
+          * destruct (hash_ok f idx b y); cbn; split; intro H; try reflexivity; discriminate.
+          * split; intro H; discriminate.
+        + intros j t Ht. unfold tag_of in Ht. destruct (slot_of c pos j) as [|f idx b|h]; try contradiction.
+          destruct (read_block bs s j f idx) as [y|].
+          * destruct (hash_ok f idx b y); [contradiction|]. destruct Ht as [E|[]]. subst t. exists f, idx, b, K_ERR_DATA. auto.
+          * destruct Ht as [E|[]]. subst t. exists f, idx, b. eexists. split; [reflexivity|]. split; [reflexivity|].
+            destruct (co_fix o || _); auto.
+    Qed.
   End DataPhase.
+
+  (* a block is reported iff it is not the recorded one (collision freedom between the block on disk and the recorded one) *)
+  Lemma is_bad_iff c pos s v j f idx b :
+    slot_of c pos j = SFile f idx b -> enc_ok hashf bs c pos v -> j < length (c_disks c) ->
+    (forall y, read_block bs s j f idx = Some y -> hash_ok f idx b y = true -> y = vnth v j) ->
+    (is_bad c pos s j = false <-> read_block bs s j f idx = Some (vnth v j)).
+  Proof.
+    intros Es [_ Henc] Hj Hcf. unfold is_bad. rewrite Es. specialize (Henc j Hj). rewrite Es in Henc. cbn in Henc.
+    destruct (read_block bs s j f idx) as [y|] eqn:Er.
+    - split.
+      + intro H. f_equal. apply Hcf; [reflexivity|]. destruct (hash_ok f idx b y); [reflexivity | discriminate].
+      + intro H. injection H as H. subst y. unfold hash_ok, vnth. rewrite Henc. destruct (fb_hash b); cbn; auto. rewrite N.eqb_refl. reflexivity.
+    - split; intro H; discriminate.
+  Qed.
 
   (* ---- writing back ------------------------------------------------------------------------------------------------ *)
   (* states that differ only in counters, tags, the junk counter, and flags other than DAMAGED *)
@@ -999,7 +1038,8 @@ Section Phases.
                    /\ (N.of_nat idx * bs + block_len bs (cf_size f) idx <= ff_size g)%N /\ (ff_size g <= cf_size f)%N)
       /\ (forall l, l < nlev -> par_matches v (prow (r_par s') pos l) = true)
       /\ r_unrec s' = r_unrec s
-      /\ keeps_damaged s s'.
+      /\ keeps_damaged s s'
+      /\ length (r_fs s') = length (r_fs s).
     Proof.
       pose proof (data_phase_inv o c pos s Hplain Hsync Hlenfs Hfile) as I.
       set (a := data_phase hashf bs newino now o c pos s) in *.
@@ -1076,7 +1116,7 @@ Section Phases.
       set (s8 := fold_left (file_post o c pos) (seq 0 n) s7) in *.
       destruct PO as [Q1 Q2 Q3 Q4 Q5 Q6].
       assert (Hfull : forall j, j < n -> vnth buf' j = vnth v j) by (intros j Hj; apply Hfl2; rewrite Hbuflen; exact Hj).
-      split; [|split; [|split]].
+      split; [|split; [|split; [|split]]].
       - (* the data *)
         intros j f idx b Es.
         assert (Hj : j < n).
@@ -1134,6 +1174,59 @@ Section Phases.
         + exact Hveq.
       - rewrite Q2, P3, W2. change (r_unrec s5) with (r_unrec (da_st a)). exact Cunrec.
       - intro k. rewrite (Q5 k). apply Hd7.
+      - rewrite Q4, P1, W5. change (length (r_fs s5)) with (length (r_fs (da_st a))). exact Clen.
+    Qed.
+
+    (* ... and a following check of the stripe (a new run: fresh flags and counters) reports nothing *)
+    Variable o' : copts.
+    Hypothesis Hplain' : plain o'.
+    Hypothesis Hcheck' : co_fix o' = false.
+    Hypothesis Hlen0 : forall j f idx b, slot_of c pos j = SFile f idx b -> (0 < block_len bs (cf_size f) idx)%N.
+
+    Lemma par_matches_veq x y p : veq x y = true -> par_matches x p = par_matches y p.
+    Proof.
+      intro H. destruct p as [w|t|]; cbn; try reflexivity.
+      destruct (veq x w) eqn:E1, (veq y w) eqn:E2; try reflexivity.
+      - rewrite (veq_trans y x w (veq_sym _ _ H) E1) in E2. discriminate.
+      - rewrite (veq_trans x y w H E2) in E1. discriminate.
+    Qed.
+
+    Theorem fix_then_check_quiet :
+      let s' := stripe_step hashf padz truncf bs nlev reduced newino now o c fs0 s pos in
+      let s0 := mkRS (r_fs s') [] (r_par s') 0 0 0 [] 0%N in
+      let s'' := stripe_step hashf padz truncf bs nlev reduced newino now o' c (r_fs s') s0 pos in
+      r_tags s'' = [] /\ r_err s'' = 0 /\ r_unrec s'' = 0 /\ r_fs s'' = r_fs s' /\ r_par s'' = r_par s'.
+    Proof.
+      cbn zeta. destruct fix_step_restores as [Ha [Hb [_ [_ Hl]]]].
+      set (s' := stripe_step hashf padz truncf bs nlev reduced newino now o c fs0 s pos) in *.
+      set (s0 := mkRS (r_fs s') [] (r_par s') 0 0 0 [] 0%N).
+      destruct Henc as [Hvlen Hvenc].
+      assert (Hrd : forall j f idx b, slot_of c pos j = SFile f idx b -> read_block bs s0 j f idx = Some (vnth v j)).
+      { intros j f idx b Es. destruct (Ha j f idx b Es) as [g [Hg [Hb' [Hsz _]]]].
+        unfold read_block. cbn [r_fs s0]. rewrite Hg.
+        assert (E : (ff_size g <? N.of_nat idx * bs + block_len bs (cf_size f) idx)%N = false) by (apply N.ltb_ge; exact Hsz).
+        rewrite E, Hb'. reflexivity. }
+      assert (Hbv : forall j, j < n -> bufval c pos s0 j = vnth v j).
+      { intros j Hj. unfold bufval. specialize (Hvenc j ltac:(fold n; lia)).
+        destruct (slot_of c pos j) as [|f idx b|h] eqn:Es.
+        - cbn in Hvenc. symmetry. exact Hvenc.
+        - rewrite (Hrd j f idx b Es). reflexivity.
+        - destruct Hsync as [Hs _]. specialize (Hs j). rewrite Es in Hs. contradiction. }
+      destruct (check_step_quiet o' c (r_fs s') pos s0 Hplain' Hcheck' Hsync) as [T1 [T2 [T3 [T4 [T5 T6]]]]].
+      - cbn [r_fs s0]. rewrite Hl. exact Hlenfs.
+      - intros j f idx b Es. split; [apply (Hlen0 j f idx b Es)|]. split.
+        + intros g Hg. destruct (Ha j f idx b Es) as [g' [Hg' [_ [_ Hle]]]]. cbn [r_fs s0] in Hg. rewrite Hg' in Hg. injection Hg as Hg. subst g'. exact Hle.
+        + right. reflexivity.
+      - intro j. unfold is_bad. destruct (slot_of c pos j) as [|f idx b|h] eqn:Es; try reflexivity.
+        rewrite (Hrd j f idx b Es). unfold hash_ok.
+        assert (Hj : j < n) by (destruct (Nat.lt_ge_cases j n) as [H|H]; [exact H | rewrite slot_of_out in Es by exact H; discriminate]).
+        specialize (Hvenc j ltac:(fold n; lia)). rewrite Es in Hvenc. cbn in Hvenc. unfold vnth. rewrite Hvenc, hval_eqb_refl. reflexivity.
+      - intros l Hl'. cbn [r_par s0]. rewrite <- (Hb l Hl'). apply par_matches_veq. apply veq_spec. intro i.
+        destruct (Nat.lt_ge_cases i n) as [H|H].
+        + unfold vnth at 1. rewrite nth_map_seq by exact H. apply Hbv. exact H.
+        + rewrite !vnth_out; [reflexivity | lia | rewrite map_length, seq_length; exact H].
+      - intros. cbn. auto.
+      - cbn in *. auto.
     Qed.
   End Restore.
 End Phases.
